@@ -438,9 +438,10 @@ func (u *Unit) panicProps() []string {
 		if fc.Flags["untagged_panics"] {
 			return nil
 		}
-		// the properties that speak about crashes: C13 always, C09 and C11 where the function serves them
+		// the properties that speak about crashes: C13 always; C09 and C11 (no crash), C04 (every other situation returns
+		// false) and C16 (creation succeeds or fails with an error) where the function serves them
 		for _, t := range fc.Tags {
-			if t == "C09" || t == "C11" {
+			if t == "C09" || t == "C11" || t == "C04" || t == "C16" {
 				props = append(props, t)
 			}
 		}
